@@ -434,6 +434,9 @@ fn c10(w: &mut World, _ops: &[Op]) -> Res {
         // at rest: a replica opened on the damaged storage
         c10_case(w, &cfg, ri, &damaged, &truth, None, dmg, "at rest, then open")?;
     }
+    // live: an already opened replica whose packs are damaged afterwards must still never return
+    // altered content (every read from a pack re-verifies the object digest)
+    c10_live(w, &cfg, &items, &truth, &mut rng, thorough)?;
     // in transit: a live replica holds a causally closed part; the rest arrives damaged, then refresh
     let st = RefState::from_items(&items);
     let mut heads: Vec<&String> = st.heads.iter().collect();
@@ -453,6 +456,40 @@ fn c10(w: &mut World, _ops: &[Op]) -> Res {
             w.bump("enum.damage_cases_in_transit");
             w.bump(&format!("fault.transit_{}", dmg.kind()));
             c10_case(w, &cfg, ri, &part, &truth, Some(&arriving), dmg, "in transit, then refresh")?;
+        }
+    }
+    Ok(())
+}
+
+fn c10_live(w: &mut World, cfg: &RunCfg, items: &Items, truth: &BTreeMap<(String, String), Value>, rng: &mut Rng, thorough: bool) -> Res {
+    let disk = DiskRef::from_items(items.clone(), cfg.list_seed ^ 0x11);
+    let store = disk.store();
+    let m = match guard(|| Melda::new(store).map_err(|e| e.to_string())) {
+        Ok(Ok(m)) => m,
+        _ => return Ok(()),
+    };
+    let packs: Vec<String> = items.keys().filter(|k| k.ends_with(".pack")).cloned().collect();
+    for p in packs {
+        let n = items[&p].len();
+        let positions: Vec<usize> = if thorough && n <= 4096 { (0..n).collect() } else { (0..8).map(|_| rng.below(n)).collect() };
+        for pos in positions {
+            let bit = rng.below(8) as u8;
+            disk.with(|d| d.map.get_mut(&p).unwrap()[pos] ^= 1 << bit);
+            w.bump("enum.damage_cases_live");
+            w.bump("fault.live_bitflip");
+            for ((u, rev), tv) in truth {
+                match guard(|| m.get_value(u, Some(rev)).ok()) {
+                    Ok(Some(v)) => {
+                        w.bump("probe.damage_value_checked");
+                        if &Value::Object(v.clone()) != tv {
+                            viol!(w, "no-altered-content", "damage-live-altered-content", "flip bit {} of byte {} of {} while a replica is open: revision {} of {} now reads {} (stored: {})", bit, pos, p, rev, u, trunc(&Value::Object(v)), trunc(tv));
+                        }
+                    }
+                    Ok(None) => w.bump("probe.damage_live_read_refused"),
+                    Err(c) => viol!(w, "damaged-read-returns", format!("damage-live-value-{}", c.class()), "flip bit {} of byte {} of {} while a replica is open: get_value({}, {}) does not return: {}", bit, pos, p, u, rev, c.text()),
+                }
+            }
+            disk.with(|d| d.map.get_mut(&p).unwrap()[pos] ^= 1 << bit);
         }
     }
     Ok(())
